@@ -41,6 +41,7 @@ def gen_cases(tier, seed):
                     # team library, a distribution package, a notebook directory - attribution never depends on it
                     "srcdir": r.choice(["/verif/scratch/gen", "/verif/scratch/gen", "/opt/team/lib/python3.12/site-packages/teamplans", "/usr/lib/python3/dist-packages/jobs",
                                         "/home/u/IPython-notebooks/core-plans", "/srv/app/lib/uberjob_plans"]),
+                    "at_import": r.random() < 0.15,
                     "modname": r.choice(MODNAMES)})  # __name__ of the user's builder module (nothing about uberjob may depend on it)  # run with registry.copy(): the copy must attribute failures to the same lines
     return out
 
@@ -93,6 +94,12 @@ def make_source(desc):
         if d == depth:
             if inner:
                 lines.append(f"    {inner}")
+            elif desc.get("at_import"):
+                # the plan is built by the BODY of a module (a pipeline definition executed at import time) that this function loads: the
+                # creating line is in a <module> frame that is not the outermost frame - the enclosing frames are user code all the same
+                inner_src = "# pipeline definitions\n" + body.format(ind="") + "\n"
+                inner_name = desc.get("srcdir", "/verif/scratch/gen") + f"/c19_{desc['seed']}_defs.py"
+                lines.append(f"    exec(compile({inner_src!r}, {inner_name!r}, 'exec'), dict(plan=plan, registry=registry, here=here, K=K, __name__='pipeline_defs'))")
             else:
                 lines.append("    " + body.format(ind="    "))
         else:
@@ -101,6 +108,12 @@ def make_source(desc):
     lines.append("def entry(plan, registry, here, K):")
     lines.append("    level0(plan, registry, here, K)")
     return "\n".join(lines) + "\n"
+
+
+def same_frames(got, want):
+    """The frames uberjob recorded are the captured ones: same file, same line, same order. The function NAME may follow either of Python's
+    conventions (co_name, as tracebacks print it, or co_qualname): attribution is to source lines, the property says nothing about naming."""
+    return len(got) == len(want) and all(g[1] == w[1] and g[2] == w[2] and g[0] in (w[0], w[3]) for g, w in zip(got, want))
 
 
 def run_case(desc):
@@ -193,7 +206,7 @@ def run_case(desc):
         fr = sys._getframe(1)
         chain = []
         while fr is not None:
-            chain.append((fr.f_code.co_name, fr.f_code.co_filename, fr.f_lineno))
+            chain.append((fr.f_code.co_name, fr.f_code.co_filename, fr.f_lineno, getattr(fr.f_code, "co_qualname", fr.f_code.co_name)))
             fr = fr.f_back
         captured[tag] = chain
 
@@ -252,15 +265,15 @@ def run_case(desc):
                        "reg_readback": "read", "src_read": "read", "src_noreg": "source", "mtime_stored": "ok", "mtime_source": "source"}[desc["kind"]]
         if getattr(call.fn, "__name__", None) != expected_fn:
             bad = f"CallError.call is a call to {getattr(call.fn, '__name__', call.fn)!r}, expected the failing {expected_fn!r} call"
-        elif got != want:
-            bad = f"symbolic traceback starts at {got[:2]} but the call was created at {want[:2]} (full: got {got} want {want})"
+        elif not same_frames(got, want):
+            bad = f"symbolic traceback starts at {got[:2]} but the call was created at {[w[:3] for w in want[:2]]} (full: got {got} want {[w[:3] for w in want]})"
         elif got_trunc != truncated:
             bad = f"truncation marker {'present' if got_trunc else 'absent'} but the creating stack had {len(chain)} frames (limit {LIMIT + 1})"
         else:
             text = str(exc)
             lines = text.split("\n")
             exp_lines = ["Symbolic traceback (most recent call last):"] + (["  ... truncated"] if truncated else []) + \
-                        [f'  File "{p}", line {l}, in {n}' for (n, p, l) in reversed(want)]
+                        [f'  File "{w[1]}", line {w[2]}, in {g[0]}' for g, w in reversed(list(zip(got, want)))]
             if lines[1:] != exp_lines:
                 bad = f"rendered message lists {lines[1:]} expected {exp_lines}"
             elif not lines[0].startswith("An exception was raised in a symbolic call to "):
